@@ -37,6 +37,16 @@ def emit_cfg(c, cfg, rng):
         style = rng.below(3)
         if style == 0 or (m & 1):
             c.b("meta", title, ct, lang)
+            # builder-level setters AFTER with_metadata must add to it, not replace it
+            extra = []
+            if rng.chance(1, 4):
+                extra.append(("ctime", "%x" % rng.choice(CTIMES)))
+            if rng.chance(1, 4):
+                extra.append(("lang", hx(rng.choice(LANGS))))
+            if len(extra) == 2 and rng.chance(1, 2):
+                extra.reverse()
+            for k, v in extra:
+                c.b(k, v)
         else:
             # builder-level setters (no title possible that way)
             if m & 2:
@@ -786,7 +796,7 @@ def fam_builder_scripts(rng, n, prefix):
         c = Case("%s%d" % (prefix, i), "mux")
         codec = rng.choice(VCODECS)
         audio = None
-        for k in range(rng.range(1, 6)):
+        for k in range(rng.range(1, 7)):
             r = rng.below(8)
             if r < 2:
                 codec = rng.choice(VCODECS)
@@ -795,9 +805,13 @@ def fam_builder_scripts(rng, n, prefix):
                 audio = rng.choice(["aac-lc", "opus", "none", "none", "aac-he"])
                 c.b(rng.choice(["audio", "setaudio"]), audio, "%x" % rng.choice([48000, 44100]), "%x" % rng.choice([1, 2]))
             elif r < 6:
-                c.b("meta", hx(bytes(rng.choice(b"abcXYZ 09") for _ in range(rng.range(1, 6)))) if rng.chance(1, 2) else "~", "~", "~")
+                c.b("meta", hx(bytes(rng.choice(b"abcXYZ 09") for _ in range(rng.range(1, 6)))) if rng.chance(1, 2) else "~",
+                    ("%x" % rng.choice(CTIMES)) if rng.chance(1, 3) else "~", hx(rng.choice([b"fra", b"jpn"])) if rng.chance(1, 3) else "~")
             elif r < 7:
-                c.b("lang", hx(rng.choice([b"eng", b"deu", b"und"])))
+                if rng.chance(1, 2):
+                    c.b("lang", hx(rng.choice([b"eng", b"deu", b"und"])))
+                else:
+                    c.b("ctime", "%x" % rng.choice(CTIMES))
             else:
                 c.b("fast", rng.below(2))
         if not any(l.startswith("b video") or l.startswith("b setvideo") for l in c.lines) and rng.chance(5, 6):
@@ -972,6 +986,11 @@ def fam_extreme_ts(rng, n, prefix):
         if rng.chance(1, 4):
             ts = [rng.choice(vals)] + ts
         key = True
+        if rng.chance(1, 3):
+            # a presentation time that saturates the tick range with an ordinary decode time: pts - dts near 2^64
+            c.o("wvd", fb(rng.choice([1e15, 1e300, top, top * 1.0000001])), fb(rng.choice([0.0, 1 / 30.0, 1.0])),
+                hx(video_key(rng, codec)), 1)
+            key = rng.chance(1, 2)      # the frame above must be rejected, so the next one may still have to be the key frame
         for t in ts:
             if rng.chance(1, 4):
                 dt = rng.choice(vals)
